@@ -30,6 +30,7 @@ r2 = [m for m in metas if m.get('round', 1) == 2]
 r3 = [m for m in metas if m.get('round', 1) == 3]
 r4 = [m for m in metas if m.get('round', 1) == 4]
 r7 = [m for m in metas if m.get('round', 1) == 7]
+r8 = [m for m in metas if m.get('round', 1) == 8]
 p = '/verif/DESIGN.md'
 s = open(p).read()
 def put(s, tag, title, ms):
@@ -42,6 +43,7 @@ s = put(s, 'ROUND2', '11.2 Round 2 (a different clause of each property)', r2)
 s = put(s, 'ROUND3', '11.3 Round 3 (subtle changes, a third clause or mechanism)', r3)
 s = put(s, 'ROUND4', '11.4 Round 4 (blind: evaluated before anything was read or changed)', r4)
 s = put(s, 'ROUND7', '11.7 Round 7 (blind, after the two property-preserving rounds)', r7)
+s = put(s, 'ROUND8', '11.8 Round 8 (blind, ten properties, final session)', r8)
 open(p, 'w').write(s)
 c = {}
 for m in metas:
